@@ -9,9 +9,10 @@ CHECKS = {
                  "member is a regular file of positive size without link name, links have size 0 and no payload (payload_iff, links_have_no_payload); directories "
                  "carry a trailing slash (dir_trailing_slash); uid/gid/xattrs/device numbers/link name are carried over (identity_preserved). Correspondence: "
                  "WriteTar over in-memory and on-disk views (all types, long and non-UTF-8 names, xattrs, filters), archive read back with archive/tar and compared "
-                 "member by member with the model; payload length = header size."),
-        "note": ("Trusted: Lean kernel + standard axioms; the byte layout of ustar/PAX is archive/tar's and is trusted; 'extracting reproduces the view' is "
-                 "checked at member level only (no extraction to disk yet); mtime is compared as archive/tar rounds it (nearest second)."),
+                 "member by member with the model; payload length = header size; 60% of the archives are extracted by an independent extractor (GNU tar as "
+                 "root, -p --same-owner --xattrs) and the extracted tree is judged by the Lean tree specification of C01 against the view (mtimes to the second)."),
+        "note": ("Trusted: Lean kernel + standard axioms; the byte layout of ustar/PAX is archive/tar's and is trusted; GNU tar as the extractor; mtime is "
+                 "compared as archive/tar rounds it (nearest second). The extraction clause found F24 (dangling hard link in a filtered view), repaired."),
     },
     "C13": {
         "text": ("Lean theorems (entry level, unbounded): without options the metadata a copied entry ends up with is the source's, with chown/utime/mode the "
